@@ -1799,11 +1799,7 @@ impl<'a, 'b> InternalDelphiLogicalLineParser<'a, 'b> {
         while self.get_current_token_type().is_some()
             && !predicate(self)
             && self.context.get_ending_context_idx(self).is_none()
-            && {
-                #[cfg(pasfmt_verif)]
-                crate::verif::op(crate::verif::ParserOp::Loop(0, self.pass_index));
-                matches!(next_token_op(self), OpResult::Continue)
-            }
+            && matches!(next_token_op(self), OpResult::Continue)
         {}
     }
 
